@@ -224,6 +224,8 @@ class View:
                     continue
                 for j, st in enumerate(blk["stmts"]):
                     if st["k"] == "assign":
+                        if st["place"]["p"] and st["place"]["p"][0]["k"] == "deref":
+                            continue  # a write through a reference does not redefine the reference
                         d.setdefault(st["place"]["l"], []).append(("stmt", i, j, st))
                 t = blk["term"]
                 if t["k"] == "call":
